@@ -7,7 +7,7 @@ From Coq Require Import ZArith List.
 Import ListNotations.
 From V Require Import Valid.Hier Valid.Walk Valid.FlatRegion Valid.Run.
 From Coq Require Import Lia.
-From V Require Import Model.Pipe Model.PipeBounded Model.PipeBounded4 Model.Graph Model.Edits Model.Edits2 Model.JoinPath Model.Refine Model.CbPath Model.LoopEdit Model.LoopSpec Model.LoopPath Model.LoopPath2 Model.IbPath.
+From V Require Import Model.Pipe Model.PipeBounded Model.PipeBounded4 Model.Graph Model.Edits Model.Edits2 Model.JoinPath Model.Refine Model.CbPath Model.LoopEdit Model.LoopSpec Model.LoopPath Model.LoopPath2 Model.IbPath Model.Extract Model.ExtractPath.
 
 Theorem C01_checker_sound :
   forall rw g h, c01_check rw g h = true -> PathEq rw g h.
@@ -211,6 +211,33 @@ Proof.
 Qed.
 Print Assumptions C01_single_successor_insertion_preserves_paths.
 
+(* region extraction, for ALL hierarchies (no bound): Extract.extract - the line-by-line model of
+   extract_region, compared with the implementation on every call the pipeline makes - keeps the flat
+   walk.  For every hierarchy in which headers lie below their regions and every successor of every
+   block resolves, every level, every set of blocks with header hd (below the level) and every fresh
+   region name: a successor is kept or, where it was hd, becomes the new region, whose header is hd;
+   tables of branching entries follow; so every successor resolves to the same block as before *)
+Theorem C01_region_extraction_preserves_paths :
+  forall hd rname h lvl blocks entries ex rk h',
+    rname <> hd ->
+    extract h lvl blocks entries hd ex rk rname = XOk h' ->
+    find h rname = None ->
+    (forall x n, find h x = Some n -> is_region n = false -> Good hd rname n) ->
+    (exists nl, find h lvl = Some nl /\ is_region nl = true) ->
+    (exists rank : name -> nat,
+       (forall x n rk0 h0 e0 c0 p0 o0, find h x = Some n -> n_kind n = KRegion rk0 h0 e0 c0 p0 o0 -> (rank h0 < rank x)%nat) /\
+       (rank hd < rank lvl)%nat) ->
+    (forall x n t, find h x = Some n -> is_region n = false -> In t (n_jt n) -> enter_flat h (S (length h)) t <> None) ->
+    forall n e e' ds tr st,
+      (exists b p, find h n = Some b /\ n_kind b = KOrig p) ->
+      E Fx e e' ->
+      WTrace h (resolve_flat h) false n e ds tr st -> WTrace h' (resolve_flat h') false n e' ds tr st.
+Proof.
+  intros hd rname h lvl blocks entries ex rk h' Hne.
+  exact (extract_keeps_walks hd rname Hne h lvl blocks entries ex rk h' false).
+Qed.
+Print Assumptions C01_region_extraction_preserves_paths.
+
 (* the generic reason (Model/Refine.v): an edit keeps every walk when each old block keeps its kind and
    arity and each way of leaving it leads, through a bridge that only touches fresh variables, to the
    block it led to before *)
@@ -359,4 +386,37 @@ Proof.
   - split; [repeat constructor; cbn; intuition lia|]. intros x Hx. cbn in Hx |- *. intuition lia.
   - intros t Ht. cbn in Ht. destruct Ht as [<-|[<-|[]]]; exists 1, (mkE [2; 3] [] (EPlain 100));
       [exists 0%nat|exists 1%nat]; (split; [left; reflexivity|split; reflexivity]).
+Qed.
+
+(* non-vacuity of C01_region_extraction_preserves_paths: the self loop 6 (declared back edge), entered
+   from 5 and left to 7, is wrapped into the loop region 50 of the outermost graph *)
+Example C01_region_extraction_example :
+  let h := [ mkNode 1 0 [] [] (KRegion 1 0 0 [5; 6; 7] 0 true);
+             mkNode 5 1 [6] [] (KOrig 1); mkNode 6 1 [6; 7] [6] (KOrig 1); mkNode 7 1 [] [] (KOrig 1) ] in
+  exists h', extract h 1 [6] [5] 6 6 2 50 = XOk h' /\
+    forall n e e' ds tr st,
+      (exists b p, find h n = Some b /\ n_kind b = KOrig p) -> E Fx e e' ->
+      WTrace h (resolve_flat h) false n e ds tr st -> WTrace h' (resolve_flat h') false n e' ds tr st.
+Proof.
+  cbv zeta. eexists. split; [vm_compute; reflexivity|].
+  assert (Hf : forall x n, find [ mkNode 1 0 [] [] (KRegion 1 0 0 [5; 6; 7] 0 true);
+             mkNode 5 1 [6] [] (KOrig 1); mkNode 6 1 [6; 7] [6] (KOrig 1); mkNode 7 1 [] [] (KOrig 1) ] x = Some n ->
+             (x = 1 /\ n = mkNode 1 0 [] [] (KRegion 1 0 0 [5; 6; 7] 0 true)) \/ (x = 5 /\ n = mkNode 5 1 [6] [] (KOrig 1)) \/
+             (x = 6 /\ n = mkNode 6 1 [6; 7] [6] (KOrig 1)) \/ (x = 7 /\ n = mkNode 7 1 [] [] (KOrig 1))).
+  { intros x n. cbn [find n_name].
+    destruct (Z.eqb_spec 1 x); [intros [= <-]; subst; auto|]. destruct (Z.eqb_spec 5 x); [intros [= <-]; subst; auto|].
+    destruct (Z.eqb_spec 6 x); [intros [= <-]; subst; auto 6|]. destruct (Z.eqb_spec 7 x); [intros [= <-]; subst; auto 7|discriminate]. }
+  apply (C01_region_extraction_preserves_paths 6 50 _ 1 [6] [5] 6 2).
+  - lia.
+  - vm_compute. reflexivity.
+  - reflexivity.
+  - intros x n Hx Hl. destruct (Hf x n Hx) as [[-> ->]|[[-> ->]|[[-> ->]|[-> ->]]]]; try discriminate;
+      (split; [repeat constructor; cbn; intuition lia|]); (split; [left; cbn; intuition lia|intros; discriminate]).
+  - eexists. split; reflexivity.
+  - exists (fun x => if Z.eqb x 1 then 2%nat else if Z.eqb x 0 then 0%nat else 1%nat). split.
+    + intros x n rk0 h0 e0 c0 p0 o0 Hx Hk. destruct (Hf x n Hx) as [[-> ->]|[[-> ->]|[[-> ->]|[-> ->]]]]; try discriminate.
+      injection Hk as <- <- <- <- <- <-. cbn. lia.
+    + cbn. lia.
+  - intros x n t Hx Hl Ht. destruct (Hf x n Hx) as [[-> ->]|[[-> ->]|[[-> ->]|[-> ->]]]]; try discriminate; cbn in Ht;
+      intuition (subst; vm_compute; discriminate).
 Qed.
